@@ -107,6 +107,14 @@ func refString(in []byte, p int) (string, int, bool) {
 				sb.WriteByte('\r')
 			case 't':
 				sb.WriteByte('\t')
+			case 'a':
+				sb.WriteByte(7)
+			case 'b':
+				sb.WriteByte(8)
+			case 'f':
+				sb.WriteByte(12)
+			case 'v':
+				sb.WriteByte(11)
 			case 'x':
 				r, _ := hexn(2)
 				sb.WriteByte(byte(r))
@@ -373,7 +381,7 @@ func enumStrings(alpha []byte, maxLen int, f func(b []byte) bool) bool {
 
 var c16Sig = []byte{'0', '1', '9', 'a', 'e', 'E', 'x', 'b', '_', 'f', '.', '+', '-', '"', '`', '\\', '/', '*', '=', '!', ':', '<', '>', '&', '|', ' ', '\n', 0, 0xC3, '@'}
 var c16Num = []byte{'0', '1', '_', '.', 'e', 'E', '+', '-', 'x', 'b', 'a', ' '}
-var c16Str = []byte{'"', '\\', 'x', 'u', 'U', 'n', '4', 'a', 'g', '`', '\n', ' '}
+var c16Str = []byte{'"', '\\', 'x', 'u', 'U', 'n', '4', 'a', 'g', '`', '\n', ' ', 'v'}
 var c16Cmt = []byte{'/', '*', ' ', '\n', 'a', '\r', '\t', '"'}
 
 func c16Families(c *core.Ctx) []struct {
